@@ -29,9 +29,17 @@ ComponentOf(E, a) == DOMAIN Phi(E, a)
 Components(E, atoms) == {ComponentOf(E, a) : a \in atoms}
 
 CycleVecs(E, phi) == {VSub(VAdd(phi[e[1]], e[3]), phi[e[2]]) : e \in E} \ {Zero3}
-RankZ(S) == IF \E a \in S : \E b \in S : \E c \in S : Det3(<<a, b, c>>) # 0 THEN 3
-            ELSE IF \E a \in S : \E b \in S : Cross(a, b) # Zero3 THEN 2
-            ELSE IF S # {} THEN 1 ELSE 0
+\* rank over Z of a finite set of integer vectors, linear in |S|: any non-zero a, any b not parallel to it,
+\* any c outside their plane.  (The cubic form "exists a, b, c with non-zero determinant" took 20 minutes on
+\* networks with ~1000 cycle vectors.)  Operator arguments and LET definitions are evaluated lazily by TLC and
+\* may be re-evaluated at every use; binding them as elements of singleton sets forces one evaluation.
+Only(S) == CHOOSE x \in S : TRUE
+RankV(S) == IF S = {} THEN 0
+            ELSE Only({ IF \A b \in S : Cross(a, b) = Zero3 THEN 1
+                        ELSE Only({ IF \A c \in S : Dot(nrm, c) = 0 THEN 2 ELSE 3
+                                    : nrm \in {Cross(a, CHOOSE x \in S : Cross(a, x) # Zero3)} })
+                        : a \in {CHOOSE x \in S : TRUE} })
+RankZ(S0) == Only({RankV(S) : S \in {S0}})
 Mod2(v) == << v[1] % 2, v[2] % 2, v[3] % 2 >>
 Xor(a, b) == << (a[1] + b[1]) % 2, (a[2] + b[2]) % 2, (a[3] + b[3]) % 2 >>
 RECURSIVE Span2(_)
@@ -41,8 +49,9 @@ RankGF2(S) == Log2(Cardinality(Span2({Mod2(v) : v \in S} \cup {Zero3})))
 
 None == -1
 \* E symmetric, atoms = 1..n
-DefDim(E, atoms) == IF Cardinality(Components(E, atoms)) > 1 THEN None
-                    ELSE LET r == CHOOSE a \in atoms : TRUE IN RankZ(CycleVecs(E, Phi(E, r)))
+DefDimV(E, atoms) == IF Cardinality(Components(E, atoms)) > 1 THEN None
+                     ELSE LET r == CHOOSE a \in atoms : TRUE IN RankZ(CycleVecs(E, Phi(E, r)))
+DefDim(E0, atoms) == Only({DefDimV(E, atoms) : E \in {E0}})
 DimGF2(E, atoms) == IF Cardinality(Components(E, atoms)) > 1 THEN None
                     ELSE LET r == CHOOSE a \in atoms : TRUE IN RankGF2(CycleVecs(E, Phi(E, r)))
 
